@@ -73,7 +73,11 @@ TIERS = {
                       Anchors="AnchQ", Decoys="DecoyQ", DecoyRots="RotsQ", Neg="TRUE", Inv="NarrowBreaks"),
         variants=3),
     "thorough": dict(
-        extra=[dict(CellNames='{"big", "bigtri"}', PatNames='{"P4flat", "P4ax"}', MaxCopies=1, MaxDecoys=1, MaxAtoms=8,
+        exhaustive=dict(CellNames='{"cub", "ort", "tri", "trineg", "skew"}', PatNames=ALLP,
+                        MaxCopies=1, MaxDecoys=0, MaxAtoms=10, Anchors="AnchQ", Decoys="DecoyQ", DecoyRots="RotsQ", Shifts="ShiftQ"),
+        extra=[dict(CellNames='{"trineg", "skew"}', PatNames='{"P4chi", "P4ax", "P4sam", "P5"}', MaxCopies=1, MaxDecoys=1, MaxAtoms=10,
+                    Anchors="AnchB", Decoys="DecoyQ", DecoyRots="RotsQ", Shifts="ShiftQ1"),
+               dict(CellNames='{"big", "bigtri"}', PatNames='{"P4flat", "P4ax"}', MaxCopies=1, MaxDecoys=1, MaxAtoms=8,
                     Anchors="AnchB", Decoys="DecoyQ", DecoyRots="Rot24", Shifts="ShiftQ1", Kinds='{"mirror"}'),
                dict(CellNames='{"huge", "hugetri"}', PatNames='{"P3long"}', MaxCopies=1, MaxDecoys=1, MaxAtoms=6,
                     Anchors="AnchH", Decoys="DecoyQ", DecoyRots="Rot24", PlantRots="Rot24", Shifts="ShiftQ1", Kinds='{"bend"}'),
@@ -82,15 +86,13 @@ TIERS = {
                dict(CellNames='{"cub"}', PatNames='{"P4half"}', MaxCopies=1, MaxDecoys=1, MaxAtoms=9,
                     Anchors="AnchQ", Decoys="DecoyQ", DecoyRots="RotsQ", Shifts="ShiftQ1"),
                dict(CellNames='{"ort", "trineg"}', PatNames='{"P2s", "P3iso", "P4ax"}', MaxCopies=2, MaxDecoys=0, MaxAtoms=8,
-                    Anchors="AnchQ", Decoys="DecoyQ", DecoyRots="RotsQ", Shifts="ShiftQ1")],
-        exhaustive=dict(CellNames='{"cub", "ort", "tri", "trineg", "skew"}', PatNames=ALLP,
-                        MaxCopies=1, MaxDecoys=1, MaxAtoms=10, Anchors="AnchQ", Decoys="DecoyQ", DecoyRots="RotsQ", Shifts="ShiftT"),
+                    Anchors="AnchB", Decoys="DecoyQ", DecoyRots="RotsQ", PlantRots="RotsQ", Shifts="ShiftQ1")],
         simulate=dict(CellNames='{"cub", "ort", "tri", "trineg", "skew"}', PatNames=ALLP,
                       MaxCopies=3, MaxDecoys=2, MaxAtoms=14, Anchors="AnchT", Decoys="DecoyT", DecoyRots="Rot24",
-                      num=60, depth=6, workers=16, sample=6000),
+                      num=40, depth=6, workers=16, sample=5000),
         negative=dict(CellNames='{"narrow"}', PatNames='{"P2far"}', MaxCopies=1, MaxDecoys=0, MaxAtoms=9,
                       Anchors="AnchQ", Decoys="DecoyQ", DecoyRots="RotsQ", Neg="TRUE", Inv="NarrowBreaks"),
-        variants=8),
+        variants=6),
 }
 
 
